@@ -301,6 +301,70 @@ impl<T: Ord> PairingHeap<T> {
     }
 }
 
+#[cfg(futures_intrusive_verif)]
+impl<T> HeapNode<T> {
+    /// Verification hook: addresses of parent, previous sibling, next sibling
+    /// and first child (0 = none).
+    pub fn verif_links(&self) -> (usize, usize, usize, usize) {
+        (
+            self.parent.map_or(0, |p| p.as_ptr() as usize),
+            self.prev.map_or(0, |p| p.as_ptr() as usize),
+            self.next.map_or(0, |p| p.as_ptr() as usize),
+            self.first_child.map_or(0, |p| p.as_ptr() as usize),
+        )
+    }
+}
+
+#[cfg(futures_intrusive_verif)]
+impl<T> PairingHeap<T> {
+    /// Verification hook: address of the root (0 = none).
+    pub fn verif_root(&self) -> usize {
+        self.root.map_or(0, |p| p.as_ptr() as usize)
+    }
+
+    /// Verification hook: pre-order walk (node, then its children from the
+    /// first child on), calling `f(node, number_of_children)`; visits at most
+    /// `limit` nodes.
+    pub fn verif_walk<F: FnMut(&HeapNode<T>, usize)>(&self, limit: usize, mut f: F) {
+        unsafe fn count_children<T>(node: &HeapNode<T>, limit: usize) -> usize {
+            let mut n = 0;
+            let mut c = node.first_child;
+            while let Some(ch) = c {
+                n += 1;
+                if n > limit {
+                    break;
+                }
+                c = (*ch.as_ptr()).next;
+            }
+            n
+        }
+        unsafe fn go<T, F: FnMut(&HeapNode<T>, usize)>(
+            node: NonNull<HeapNode<T>>,
+            budget: &mut usize,
+            f: &mut F,
+        ) {
+            if *budget == 0 {
+                return;
+            }
+            *budget -= 1;
+            let r = &*node.as_ptr();
+            f(r, count_children(r, 64));
+            let mut c = r.first_child;
+            while let Some(ch) = c {
+                go(ch, budget, f);
+                if *budget == 0 {
+                    return;
+                }
+                c = (*ch.as_ptr()).next;
+            }
+        }
+        let mut budget = limit;
+        if let Some(root) = self.root {
+            unsafe { go(root, &mut budget, &mut f) };
+        }
+    }
+}
+
 #[cfg(all(test, feature = "std"))]
 mod tests {
     use super::{HeapNode, PairingHeap};
